@@ -27,9 +27,9 @@ PID = "C10"
 META = {
     "ready": True,
     "category": "proof",
-    "technique": "Lean 4 proofs over an executable model of the numeric tower (fixnum / bignum / 32-bit ratio / big ratio with the IntoSteelVal canonicalisation and the checked-then-promote case analysis of numbers.rs), refinement to Lean's Rat for all operands; arm tables and repair flags regenerated from the Rust source; correspondence of the real engine with model and specification over boundary operand tuples through 8-12 call shapes; mixed exact/inexact arithmetic compared with IEEE-754 / exact-value reference results (test level)",
-    "level_text": "Theorems (SteelVerif/C10/Props.lean), for ALL canonical exact operands of any magnitude: add, subtract, negate, multiply, divide, quotient, remainder, modulo, abs, gcd, lcm, expt (exact exponent), numerator, denominator and exact-integer-sqrt of the model return a value that denotes the mathematically exact result (Lean Rat / Int) and is canonical (fixnum iff it fits 64 bits, ratio reduced with denominator > 1, 32-bit ratio iff both parts fit, integral ratios are integers); division by zero is an error exactly when the divisor is zero; = < > <= >= decide the order of the denoted values; two canonical values that denote the same number are identical; the specialised immediate-operand paths equal the generic ones (lte_immediate_is_le holds by definition of the model; lte_immediate_consistent is the statement with content); left folds of + and * over any operand list are exact and canonical (add_chain_exact, mul_chain_exact); unary / is exact (unary_div_exact). The clauses of the property that no theorem carries (number<->string, mixed exact/inexact, the other call shapes, constant folder, native code, huge exponents) are listed at the end of Props.lean. Where the code is defective (abs / reciprocal / expt on the most negative 64-bit and 32-bit values, 32-bit ratio powers, negative bases with negative exponents) the full statement is proved for the repaired code and a guarded `_partial` statement plus a `decide`d counterexample for the code as it is; flags extracted from the Rust source say which applies to the current tree. The model is tied to the Rust on every run by the translator (every pair of exact kinds has a computing match arm in add_two, multiply_two, number_equality, partial_cmp, ...) and by executing the real engine on boundary operand tuples through every call shape and comparing printed results with model and specification. Mixed exact/inexact operations and comparisons are NOT proved: they are tested against 'convert with round-to-nearest, then IEEE binary64' and against the exact values.",
-    "level_note": "Trusted: Lean kernel (axioms propext, Classical.choice, Quot.sound only), the hand-written model (num-bigint / Ratio<BigInt> taken as exact, Ratio<i32>, i32::gcd, isize/i32 checked and overflowing operations modelled from their source), the translator's pattern extraction, the harness, driver and comparison, and CPython's int/float/Fraction for the mixed part. number<->string conversion is exercised (every operand is read, every result printed, plus number->string and string->number round trips) but has no theorem here (C12). floor/round/truncate on ratios, huge exponents (|e| > 4096 or bignum exponents other than base 0) are not covered. Overflow is modelled as in a build with overflow checks (panic); a release build wraps instead: same failing inputs, wrong value instead of panic.",
+    "technique": "Lean 4 proofs over an executable model of the numeric tower (fixnum / bignum / 32-bit ratio / big ratio with the IntoSteelVal canonicalisation and the checked-then-promote case analysis of numbers.rs), refinement to Lean's Rat for all operands; number<->string round trip over C12's model of the lexer's number parser; model of the variadic primitives, of every arithmetic/comparison op code of the interpreter and of the constant folder, with shape-independence theorems; arm tables, repair flags and the op-code / registration / emission tables regenerated from the Rust source and decided against the model; correspondence of the real engine with model and specification over boundary operand tuples through 8-17 call shapes, variadic calls, radix conversions and generated string->number texts; mixed exact/inexact arithmetic compared with IEEE-754 / exact-value reference results (test level)",
+    "level_text": "Theorems (SteelVerif/C10/Props.lean), for ALL canonical exact operands of any magnitude: + - * / with any number of operands (add/mul/sub/div_variadic_exact; division by zero, also of a product of divisors, is an error), negate, quotient, remainder, modulo, abs, gcd, lcm, expt (fixnum exponent; bignum exponent on the bases 0, 1, -1), numerator, denominator and exact-integer-sqrt of the model return a value that denotes the mathematically exact result (Lean Rat / Int) and is canonical (fixnum iff it fits 64 bits, ratio reduced with denominator > 1, 32-bit ratio iff both parts fit, integral ratios are integers); = < > <= >= decide the order of the denoted values; two canonical values that denote the same number are identical; number_string_roundtrip: string->number (number->string x r) r = x for every radix 2..16 (number->string follows format_number, string->number is C12's model of parse_number followed by real_literal_to_steelval); shape_independent: each of the 19 arithmetic/comparison op codes of the interpreter (ADD SUB MUL DIV BINOPADD BINOPADDTAIL NUMEQUAL LTE LT GT GTE ADD/SUB/LTEREGISTER SUBREGISTER1 ADD/SUB/LTEIMMEDIATE LTEIMMEDIATEIF) computes, on every operand list the compiler can emit it with, what the function registered under the primitive's name computes (content: add_two_fallible vs add_primitive, windows(2).all vs the ord_internal loop, the inline fixnum path of SUBIMMEDIATE), with op_tables_as_modelled deciding that the op-code -> function, name -> function and emission tables extracted from vm.rs / program.rs / code_gen.rs are the model's; fold_is_call: a constant call folded at compile time (result written back as a literal and read again) yields the value of the call. Where the code is defective (abs / reciprocal / expt on the most negative 64-bit and 32-bit values, 32-bit ratio powers, negative bases with negative exponents) the full statement is proved for the repaired code and a guarded `_partial` statement plus a `decide`d counterexample for the code as it is; flags extracted from the Rust source say which applies to the current tree; string->number is NOT total in the code as it is (K10g, decide-d witness, replayed). The clauses no theorem carries (mixed exact/inexact, native-code versions, string->number on texts number->string does not produce, unrepresentable powers) are listed at the end of Props.lean. Tie: translators on every run, and the real engine executed on boundary operand tuples through every call shape (plus variadic calls with 0..5 operands, radix conversions 2..16, ~150/4000 generated string->number texts) with printed results compared with model and specification; the driver also evaluates runOp of every applicable op code and the folder against the generic call on every variadic request. Mixed exact/inexact operations and comparisons are NOT proved: they are tested against 'convert with round-to-nearest, then IEEE binary64' and against the exact values.",
+    "level_note": "Trusted: Lean kernel (axioms propext, Classical.choice, Quot.sound only), the hand-written model (num-bigint / Ratio<BigInt> taken as exact, Ratio<i32>, i32::gcd, isize/i32 checked and overflowing operations modelled from their source; radix_fmt / to_str_radix / from_str_radix taken to be positional notation), C12's model of parse_number (imported), the translators' pattern extraction (c10_arms.py, c10_ops.py), the harness, driver and comparison, and CPython's int/float/Fraction for the mixed part. That the compiler emits an op code only under the extracted rule is a reading of the source, not a compiler semantics. floor/round/truncate on ratios, exponents with |e| > 4096 (other than bignum exponents on 0, +-1) are not covered. Overflow is modelled as in a build with overflow checks (panic); a release build wraps instead: same failing inputs, wrong value instead of panic.",
 }
 
 DRIVER = "c10driver"
@@ -158,7 +158,108 @@ def gen_requests(seed, quick):
             add("sub", x, Fraction(k))
             add("add", x, Fraction(k))
             add("le", x, Fraction(k))
+    # ---- number<->string with a radix: every radix the primitives accept, boundary magnitudes --------------
+    radix_pool = [Fraction(v) for v in (0, 1, -1, 9, 10, 14, 15, 16, 255, -255, 485, 2 ** 31 - 1, -2 ** 31, 2 ** 63 - 1, -2 ** 63,
+                                        2 ** 63, -2 ** 63 - 1, 2 ** 64, 10 ** 30, -10 ** 30, 0xe, 0xee, 0x1e5, 14 * 15 + 14)]
+    radix_pool += [Fraction(-485, 7), Fraction(14, 15), Fraction(-2 ** 31, 3), Fraction(2 ** 31 - 1, 2 ** 31 - 2),
+                   Fraction(2 ** 63, 3), Fraction(-10 ** 30, 239), Fraction(0xe, 0x1e1), Fraction(1, 2 ** 64)]
+    radix_pool += rng.sample(allv, 10 if quick else 200)
+    for x in radix_pool:
+        for r in range(2, 17):
+            add("roundtripr", x, Fraction(r))
+        for r in ((2, 15, 16) if quick else range(2, 17)):
+            add("tostrr", x, Fraction(r))
+    for r in (0, 1, 17, -2, 10):
+        add("tostrr", Fraction(255), Fraction(r))
+        add("roundtripr", Fraction(255), Fraction(r))
+    # ---- string->number on arbitrary texts (structure-directed: sign? digits ['/' sign? digits], malformed variants) ---
+    for t in gen_s2n_texts(rng, 150 if quick else 4000):
+        if t not in seen:
+            seen.add(t)
+            reqs.append(t)
+    # ---- variadic calls: 0..5 operands through every op code / the folder / apply ----------------------------
+    core = [Fraction(v) for v in (0, 1, -1, 2, -2, 3, 2 ** 31, -2 ** 31, 65536, -32768, 2 ** 62, 2 ** 63 - 1, -2 ** 63, 2 ** 63,
+                                  -2 ** 63 - 1, 10 ** 30)] + [Fraction(1, 2), Fraction(-1, 2), Fraction(3, 2), Fraction(-2 ** 31, 3),
+                                                              Fraction(2 ** 63, 3), Fraction(1, 2 ** 31)]
+    nvar = 260 if quick else 9000
+    for i in range(nvar):
+        op = rng.choice(["addn", "subn", "muln", "divn", "subn", "divn", "len", "ltn", "gtn", "gen"])
+        k = rng.choice([0, 1, 2, 3, 3, 4, 5]) if op in ("addn", "subn", "muln", "divn") else rng.choice([1, 2, 3, 3, 4])
+        pool = core if rng.random() < 0.7 else allv
+        xs = [rng.choice(pool) for _ in range(k)]
+        if op in ("len", "ltn", "gtn", "gen") and rng.random() < 0.6:
+            xs = sorted(xs, reverse=op in ("gtn", "gen"))       # chains that hold: #true is not vacuous
+        add(op, *xs)
+    for xs in ([1, 65536, -32768], [6, 4, 0, 5], [-2 ** 63, 1, Fraction(1, 2), 2 ** 63], [2 ** 63 - 1, 1, -1, Fraction(1, 2)],
+               [1, 2, 3, 4, 5], [5, 1], [-2 ** 63, 1], [5, -1]):
+        for op in ("addn", "subn", "muln", "divn", "len", "gtn"):
+            add(op, *[Fraction(v) for v in xs])
+    for op in ("addn", "subn", "muln", "divn"):
+        reqs.append(op)                                       # zero operands
+    # ---- expt: unit bases with bignum exponents (exact), exact non-integer exponents (a double: bit pattern) -----
+    for b in (1, -1):
+        for e in (2 ** 63, 2 ** 63 + 1, -2 ** 63 - 1, -2 ** 63 - 2, 10 ** 30, 10 ** 30 + 1, -10 ** 30 - 1, 2 ** 200 + 1):
+            add("expt", Fraction(b), Fraction(e))
+    for b in (2, 4, 9, 10, 2 ** 62, 2 ** 64, Fraction(1, 4), Fraction(9, 4), Fraction(2 ** 64, 3), -8, 0):
+        for e in (Fraction(1, 2), Fraction(-1, 2), Fraction(1, 3), Fraction(3, 2), Fraction(2 ** 40, 3)):
+            add("expt", Fraction(b), e)
+    for b in (Fraction(1, 2), Fraction(-3, 2), Fraction(2 ** 64, 3)):
+        for e in (2 ** 63, -2 ** 63 - 1, 10 ** 30):
+            add("expt", b, Fraction(e))
     return reqs, {"ints": len(ints), "rationals": len(rats)}
+
+
+DIGITS = "0123456789abcdef"
+
+
+def to_radix(n, r):
+    if n == 0:
+        return "0"
+    s, m = "", abs(n)
+    while m:
+        s = DIGITS[m % r] + s
+        m //= r
+    return ("-" if n < 0 else "") + s
+
+
+def gen_s2n_texts(rng, count):
+    """request lines `s2n TEXT [RADIX]`: well-formed integers and ratios in every radix (with upper-case digits, a `+`
+    sign, leading zeros, a radix prefix), and the malformed neighbours (zero denominators small and beyond a fixnum,
+    signed denominators, empty parts, two slashes, digits outside the radix, exponent markers)."""
+    out = ["s2n 100000000000000000000/0", "s2n 1/0", "s2n 0/0", "s2n 9223372036854775808/0", "s2n 1/00000000000000000000000",
+           "s2n -100000000000000000000/0 16", "s2n ffffffffffffffffffffff/0 16", "s2n 1/-2", "s2n 1/+2", "s2n +5", "s2n -",
+           "s2n +", "s2n /", "s2n 1/", "s2n /2", "s2n 1/2/3", "s2n 1e2 16", "s2n 1e2 15", "s2n 1e-5 16", "s2n e 15", "s2n e 14",
+           "s2n -1e5/7 16", "s2n #xff", "s2n #xff 2", "s2n #b101 16", "s2n #o17", "s2n #d10 16", "s2n FF 16", "s2n 12 2",
+           "s2n 9223372036854775807", "s2n 9223372036854775808", "s2n -9223372036854775808", "s2n -9223372036854775809",
+           "s2n 2147483647/2147483648", "s2n -2147483648/2147483647", "s2n 4/2", "s2n 6/4", "s2n 0/5", "s2n -0", "s2n 007",
+           "s2n abc", "s2n 10 1", "s2n 10 17", "s2n 10 0"]
+    mags = [0, 1, 5, 255, 2 ** 31 - 1, 2 ** 31, 2 ** 63 - 1, 2 ** 63, 2 ** 64 + 1, 10 ** 30]
+    while len(out) < count:
+        r = rng.choice([2, 3, 8, 10, 10, 11, 14, 15, 16, 16])
+        n = rng.choice(mags) if rng.random() < 0.5 else rng.getrandbits(rng.choice([4, 16, 33, 64, 90]))
+        if rng.random() < 0.4:
+            n = -n
+        t = to_radix(n, r)
+        if rng.random() < 0.15 and n >= 0:
+            t = "+" + t
+        if rng.random() < 0.5:
+            d = rng.choice(mags) if rng.random() < 0.5 else rng.getrandbits(rng.choice([3, 16, 33, 70]))
+            dt = to_radix(d, r)
+            if rng.random() < 0.1:
+                dt = "0" * rng.choice([1, 25]) if rng.random() < 0.5 else "00" + dt
+            if rng.random() < 0.06:
+                dt = rng.choice("+-") + dt
+            t = t + "/" + dt
+        if rng.random() < 0.15:
+            t = t.upper()
+        if rng.random() < 0.06 and r < 16:
+            t = t + DIGITS[r]                                  # a digit outside the radix
+        if rng.random() < 0.08:
+            pre = rng.choice(["#x", "#X", "#d", "#o", "#b", "#B"])
+            out.append("s2n %s%s" % (pre, t) + ("" if rng.random() < 0.5 else " %d" % r))
+        else:
+            out.append("s2n %s" % t + ("" if r == 10 and rng.random() < 0.5 else " %d" % r))
+    return out
 
 
 # --------------------------------------------------------------------------------------------------
@@ -421,7 +522,12 @@ def compare(ctx, reqs, label, stats, env=None):
     for req, (m, s), shapes in zip(reqs, model, reals):
         toks = req.split()
         op = toks[0]
-        xs = [parse_operand(t) for t in toks[1:]]
+        xs = [] if op == "s2n" else [parse_operand(t) for t in toks[1:]]
+        if "!" in m:
+            # the driver evaluated `runOp` of every op code that stands for the primitive, and the constant folder, on
+            # these operands and one of them differs from the generic call: contradicts shape_independent / fold_is_call
+            stats["pending"].append((req, "model", m, m, s, "model: an op code / the folder differs from the generic call"))
+            m = m.split("!")[0]
         stats["evaluations"] += len(shapes)
         stats["requests"] += 1
         stats["ops"][op] = stats["ops"].get(op, 0) + 1
@@ -438,6 +544,39 @@ def compare(ctx, reqs, label, stats, env=None):
             r = norm_real(raw)
             if sh in ("operand", "bad", "?") and not r == "panic":
                 stats["pending"].append((req, sh, raw, m, s, "harness could not run the request"))
+                continue
+            if op == "s2n":
+                # arbitrary texts: the oracle is totality (no panic); the model (C12's parse_number + real_literal_to_steelval)
+                # must predict the real answer exactly, so that the round-trip theorem speaks about the code
+                st = stats["notes"]
+                st["string->number texts"] = st.get("string->number texts", 0) + 1
+                if r == "panic":
+                    den = toks[1].split("/")[-1].lstrip("+-") if "/" in toks[1] else "x"
+                    cls = "string_to_number_zero_denominator" if den and set(den) == {"0"} else "panic_outside_domain"
+                    record(ctx, stats, known, cls, op, xs, req, sh, raw, m, s)
+                elif m == "unmodelled":
+                    pass
+                elif r != m and not (m == "err:type" and r.startswith("err:ContractViolation")):
+                    stats["pending"].append((req, sh, raw, m, s, "string->number: real differs from the model"))
+                else:
+                    stats["agree"] += 1
+                continue
+            if m == "inexact":
+                # exact operands, the code answers with a double computed by powf: compared bit for bit with C pow on the
+                # correctly rounded operands (test level; a last-place difference of libm would be a note, not a violation)
+                if not raw.startswith("f:"):
+                    stats["pending"].append((req, sh, raw, m, s, "model says the result is a double"))
+                else:
+                    try:
+                        w = math.pow(to_double(xs[0]), to_double(xs[1]))
+                    except (ValueError, OverflowError, ZeroDivisionError):
+                        w = math.nan
+                    key = "expt with a non-integer exact exponent: %s C pow bit for bit" % (
+                        "equals" if norm_float_text(raw) == ("f:nan" if math.isnan(w) else f2hex(w)) else "DIFFERS from")
+                    stats["notes"][key] = stats["notes"].get(key, 0) + 1
+                continue
+            if m.startswith("err:type") and r.startswith("err:ContractViolation") and s == "undef":
+                stats["agree"] += 1
                 continue
             if s in ("undef", "bad"):
                 # the property says nothing about the value; a crash is still a violation
@@ -528,6 +667,18 @@ def run(ctx):
     if tinfo is None:
         ctx.violation("C10-translator.txt",
                       "translate/c10_arms.py no longer parses numbers.rs / rvals.rs:\n" + tout[-3000:], no_input=True)
+    rc2, tout2 = C.sh(["python3", os.path.join(C.VERIF, "translate", "c10_ops.py")] +
+                      ([ALT_REPO] if ALT_REPO else []), timeout=120)
+    oinfo = None
+    if rc2 == 0:
+        try:
+            oinfo = json.loads(tout2.strip().splitlines()[-1])
+        except (ValueError, IndexError):
+            oinfo = None
+    if oinfo is None:
+        ctx.violation("C10-translator-ops.txt",
+                      "translate/c10_ops.py no longer parses vm.rs / program.rs / code_gen.rs / the registrations:\n" + tout2[-3000:],
+                      no_input=True)
     # prove
     pr = C.prove(ctx, PID, [DRIVER])
     # build
@@ -606,6 +757,7 @@ def run(ctx):
         "mixed_exact_inexact_test_level": stats.get("mixed"),
         "notes": stats["notes"],
         "translator": tinfo,
+        "translator_ops": oinfo,
         "current_code": None if tinfo is None else {
             flag: ("repaired: the full `_exact` theorems apply" if val else
                    "pinned: only the `_exact_partial` theorems apply; `*_pinned_counterexample` is replayed by the corpus")
